@@ -98,6 +98,41 @@ theorem never_diverges (c : Cfg) (hwf : c.WF) (io : Nat → Fault) (fs0 : FS) (h
     (run c io (init fs0) evs).status ≠ .diverged :=
   (noOv_run hwf io evs _ (noOv_init c fs0 hdom)).nodiv
 
+def cfgPlain : Cfg := ⟨false, 0, 0, false, false, 2, true⟩
+
+/-! ### the tool as shipped (router behind go-nsq's `handlerLoop` with its `max_attempts` give-up) -/
+
+/-- full statement for the tool: whatever is finished is safe on disk -/
+def tool_fin_implies_durable : Prop :=
+  ∀ (c : Cfg) (io : Nat → Fault) (maxAttempts : Nat) (fs0 : FS) (m : Msg) (attempts : Nat) (now : Int) (fn : String),
+    ∀ x ∈ (toolStep c io maxAttempts (init fs0) m attempts now fn false).finished,
+      Safe (toolStep c io maxAttempts (init fs0) m attempts now fn false).fs (line x)
+
+/-- … is **false on the current tree** (open finding): with go-nsq's default `max_attempts = 5` the sixth
+delivery of a message is finished by the consumer library without ever reaching `HandleMessage` — if the
+five earlier attempts ended before the write (the tool was killed or took `os.Exit(1)`, e.g. disk full,
+while the message was in flight), the message is acknowledged and in no file. -/
+theorem tool_fin_implies_durable_false : ¬ tool_fin_implies_durable := by
+  intro h
+  have := h cfgPlain (fun _ => .ok) 5 FS.empty ⟨1, [104]⟩ 6 0 "t" ⟨1, [104]⟩ (by decide)
+  obtain ⟨p, f, hg, _⟩ := this
+  simp [toolStep, shouldFail, init, FS.empty] at hg
+
+/-- … and holds whenever the library does not give up (`max_attempts = 0`, or attempts ≤ max_attempts):
+then the tool step *is* the router step. -/
+theorem tool_fin_implies_durable_partial (c : Cfg) (io : Nat → Fault) (maxAttempts : Nat) (st : St) (hinv : Inv c st)
+    (m : Msg) (attempts : Nat) (now : Int) (fn : String) (starved : Bool)
+    (hno : shouldFail maxAttempts attempts = false) :
+    ∀ x ∈ (toolStep c io maxAttempts st m attempts now fn starved).finished,
+      Safe (toolStep c io maxAttempts st m attempts now fn starved).fs (line x) := by
+  have heq : toolStep c io maxAttempts st m attempts now fn starved = step c io st (.msg m now fn) starved := by
+    unfold toolStep
+    by_cases hr : st.status ≠ .running
+    · rw [if_pos hr]; unfold step; rw [if_pos hr]
+    · rw [if_neg hr, hno]; simp
+  rw [heq]
+  exact fun x hx => safe_of_durS ((inv_step io st _ starved hinv).fin x hx)
+
 /-- **Syscall leg.** The checker run over the `strace` log of the real process is sound: a trace it
 accepts has an `fsync` of the file between every `write` to an output file and every later FIN. -/
 theorem fin_after_fsync_checker_sound (tr pre mid post : List Nsq.Model.ToFileTrace.Sys) (f id : Nat)
@@ -115,7 +150,6 @@ theorem fin_after_fsync_msg_checker_sound (tr pre post : List Nsq.Model.ToFileTr
 
 /-! ### non-vacuity -/
 
-def cfgPlain : Cfg := ⟨false, 0, 0, false, false, 2, true⟩
 def cfgGzWork : Cfg := ⟨true, 10, 0, true, false, 2, true⟩
 def noFault : Nat → Fault := fun _ => .ok
 def m1 : Msg := ⟨1, [104, 105]⟩
